@@ -12,6 +12,7 @@ SIG = (
     ('red', ('31',)), ('blue', ('34',)), ('bold', ('1',)), ('no_bold_faint', ('22',)), ('[38;5;9', ('38;5;9',)),
     ('rgb(1,2,3)', ('38;2;1;2;3',)), ('[99', ('99',)), ('[1;31', ('1;31',)), ('[1m', ('1m',)), (None, ('31',)),
     ('ul_rgb(4,5,6)', ('4', '58;2;4;5;6')), ('fg_default', ('39',)), ('bg_color256(7)', ('48;5;7',)), ('[4;', ('4;',)),
+    ('[38;5;300', ('38;5;300',)), ('[48;2;1;2;256', ('48;2;1;2;256',)),
 )
 
 
@@ -53,11 +54,17 @@ def _roundtrip(s, n):
     if not all_valid:
         cover('has-invalid')
     # effective style of the valid settings
-    try:
-        want = [term.red([x for x in row if valid_text(x)]) for row in tab]
-    except term.Ambiguous:
-        cover('ambiguous')
-        return None
+    def settled(x):
+        try:
+            term.red([x])
+            return True
+        except term.Ambiguous:
+            return False
+    unsettled = any(not settled(x) for row in tab for x in row if valid_text(x))
+    if unsettled:
+        cover('out-of-range-colour')
+        all_valid = False               # no claim about the display of such a setting; simplify() must still end parsable
+    want = [term.red([x for x in row if valid_text(x) and settled(x)]) for row in tab]
     # (i) render / re-parse
     if all_valid:
         r = AnsiString(str(s))
@@ -81,8 +88,8 @@ def _roundtrip(s, n):
         try:
             got = term.red(ct[i])
         except term.Ambiguous:
-            return ('simplify-malformed', i, ct[i])
-        if got != want[i]:
+            got = None
+        if got != want[i] and not unsettled:
             return ('simplify-style', i, tab[i], ct[i])
     if not c.is_formatting_parsable() or not c.is_formatting_valid():
         return ('simplify-not-parsable', ct)
